@@ -5,10 +5,11 @@ import VoluteModel.Lemmas.Group
 /-!
 # C04 - P/N/NPN canonization returns the orbit minimum
 
-Proved for every function of n <= 8 variables (the range the property quantifies over); the
-N-canonization statements (`n_orbit_min_all`, `n_classes`) hold for every n <= 64, because the
-run-time Gray-flip generator is proved Hamiltonian for every n (`Lemmas/Gray.lean`) instead of
-being evaluated size by size:
+Proved for every n (the property quantifies over n <= 8): P for every n, N and NPN for every
+n <= 64 (the width of `trailing_zeros` in the Gray-flip generator).  The run-time generators of
+the flip and swap sequences are PROVED to be closed Hamiltonian walks for every n
+(`Lemmas/Gray.lean`, `Lemmas/Sjt.lean`); only the constant tables of the source (n <= 6) are
+evaluated in the kernel:
  * the three canonizations terminate normally (never `none` = panic), including n = 0, 1;
  * `p_orbit_min`, `n_orbit_min`, `npn_orbit_min`: the representative is the image of f under the
    returned certificate (so it is in the orbit), and it is numerically <= the image of f under
@@ -18,7 +19,7 @@ being evaluated size by size:
    The proof: minimum over the visited group elements (`orbit_min_partial`, from the walk
    invariant) + coverage (`Lemmas/Cover.lean`): the walk visits every group element, because the
    permutations / masks before each step are pairwise distinct and there are n! / 2^n of them
-   (kernel-evaluated on the sequences in use), and a duplicate-free list of n! permutations of
+   (kernel-evaluated on the tables, proved for the generators), and a duplicate-free list of n! permutations of
    0..n-1 contains them all (`Lemmas/Count.lean`, the one place where a Mathlib module is used).
  * `*_unique`: the representative is the only minimum, hence the same for any two functions with
    the same orbit, and canonizing a representative returns it.
@@ -45,11 +46,11 @@ theorem ltT_false_iff (a b : Array W) (h : a.size = b.size) :
       rw [Nat.compare_eq_eq.mpr this]; rfl
 
 /-- no panic: P, N and NPN canonization return normally for every function of 0..8 variables -/
-theorem no_panic (n : Nat) (h8 : n ≤ 8) (f : Array W) (hf : WF n f) :
+theorem no_panic (n : Nat) (h64 : n ≤ 64) (f : Array W) (hf : WF n f) :
     (pCanonization n f).isSome = true ∧ (nCanonization n f).isSome = true ∧ (npnCanonization n f).isSome = true := by
   have hp : (pCanonization n f).isSome = true := by
     by_cases h2 : 2 ≤ n
-    · obtain ⟨c, perm, h, _⟩ := p_certificate n h2 h8 f hf; rw [h]; rfl
+    · obtain ⟨c, perm, h, _⟩ := p_certificate n h2 f hf; rw [h]; rfl
     · rw [(p_small n (by omega) f).1]; rfl
   have hn : (nCanonization n f).isSome = true := by
     by_cases h1 : 1 ≤ n
@@ -59,7 +60,7 @@ theorem no_panic (n : Nat) (h8 : n ≤ 8) (f : Array W) (hf : WF n f) :
       obtain ⟨c, mask, h, _⟩ := n_zero f hf; rw [h]; rfl
   refine ⟨hp, hn, ?_⟩
   by_cases h2 : 2 ≤ n
-  · obtain ⟨c, perm, mask, h, _⟩ := npn_certificate n h2 h8 f hf; rw [h]; rfl
+  · obtain ⟨c, perm, mask, h, _⟩ := npn_certificate n h2 h64 f hf; rw [h]; rfl
   · rw [npn_small n (by omega) f]
     cases hx : nCanonization n f with
     | none => rw [hx] at hn; cases hn
@@ -107,17 +108,12 @@ theorem min_of_cover (n : Nat) (f c : Array W) (perm : Array Nat) (mask : Nat) (
     cert_unique n f t _ σ μ hσ ht (stateAt_WF n f hf ms hsafe j) hrel hr
   rw [this]; exact hle
 
-/-- n! from the table of `SeqFacts` -/
-theorem fact_eq (n : Nat) (h8 : n ≤ 8) : n.factorial = factTable[n]?.getD 0 := by
-  have := factorial_le8 ⟨n, by omega⟩
-  exact this
-
 /-- **C04, P**: the representative is in the orbit of f under input permutations and is <= every
-    member of that orbit (n = 2..8; n <= 1 has the trivial group, `p_small`) -/
-theorem p_orbit_min (n : Nat) (h2 : 2 ≤ n) (h8 : n ≤ 8) (f : Array W) (hf : WF n f) :
+    member of that orbit (n >= 2; n <= 1 has the trivial group, `p_small`) -/
+theorem p_orbit_min (n : Nat) (h2 : 2 ≤ n) (f : Array W) (hf : WF n f) :
     ∃ c perm, pCanonization n f = some (c, perm) ∧ WF n c ∧ IsPerm n perm ∧ CertRel n f c perm 0 ∧
       ∀ σ t, IsPerm n σ → WF n t → CertRel n f t σ 0 → toNatLE c.toList ≤ toNatLE t.toList := by
-  obtain ⟨sw, hsw, hs, hcov⟩ := swapsFor_facts n h2 h8
+  obtain ⟨sw, hsw, hs, hcov⟩ := swapsFor_facts n h2
   obtain ⟨c, perm, h1, r⟩ := p_result n f hf h2 sw hsw hs
   have hsafe := (p_safe n sw hs).1
   have hwf : WF n c := by
@@ -125,11 +121,11 @@ theorem p_orbit_min (n : Nat) (h2 : 2 ≤ n) (h8 : n ≤ 8) (f : Array W) (hf : 
     rw [rk.table]; exact stateAt_WF n f hf _ hsafe k
   refine ⟨c, perm, h1, hwf, (result_wellformed n f c perm 0 _ hsafe r).1, r.rel, ?_⟩
   intro σ t hσ ht hrel
-  obtain ⟨j, hj, hc⟩ := p_cover n _ (fact_eq n h8) sw hs hcov.distinct hcov.length σ hσ
+  obtain ⟨j, hj, hc⟩ := p_cover n sw hs hcov.nodup hcov.length σ hσ
   exact min_of_cover n f c perm 0 _ hf hsafe r σ 0 hσ ⟨j, by rw [macroP_length]; omega, hc⟩ t ht hrel
 
 /-- **C04, N**: the representative is <= the image of f under every complementation mask
-    (inputs and output), n = 1..8 -/
+    (inputs and output), n = 1..64 -/
 theorem n_orbit_min (n : Nat) (h1 : 1 ≤ n) (h64 : n ≤ 64) (f : Array W) (hf : WF n f) :
     ∃ c mask, nCanonization n f = some (c, mask) ∧ WF n c ∧ mask < 2 ^ (n + 1) ∧
       CertRel n f c (Array.range n) mask ∧
@@ -150,13 +146,13 @@ theorem n_orbit_min (n : Nat) (h1 : 1 ≤ n) (h64 : n ≤ 64) (f : Array W) (hf 
     ⟨k, by rw [macroN_length]; exact hk, hc⟩ t ht hrel
 
 /-- **C04, NPN**: the representative is <= the image of f under every pair (permutation of the
-    inputs, complementation mask of inputs and output), n = 2..8 -/
-theorem npn_orbit_min (n : Nat) (h2 : 2 ≤ n) (h8 : n ≤ 8) (f : Array W) (hf : WF n f) :
+    inputs, complementation mask of inputs and output), n = 2..64 -/
+theorem npn_orbit_min (n : Nat) (h2 : 2 ≤ n) (h64 : n ≤ 64) (f : Array W) (hf : WF n f) :
     ∃ c perm mask, npnCanonization n f = some (c, perm, mask) ∧ WF n c ∧ IsPerm n perm ∧ mask < 2 ^ (n + 1) ∧
       CertRel n f c perm mask ∧
       ∀ σ μ t, IsPerm n σ → μ < 2 ^ (n + 1) → WF n t → CertRel n f t σ μ →
         toNatLE c.toList ≤ toNatLE t.toList := by
-  obtain ⟨sw, hsw, hs, hcs⟩ := swapsFor_facts n h2 h8
+  obtain ⟨sw, hsw, hs, hcs⟩ := swapsFor_facts n h2
   obtain ⟨fl, hfl', hfl, hcf⟩ := flipsFor_facts n (by omega) (by omega)
   obtain ⟨c, perm, mask, h, r⟩ := npn_result n f hf h2 sw fl hsw hfl' hs hfl
   have hsafe := (npn_safe n sw fl hs hfl).1
@@ -167,7 +163,7 @@ theorem npn_orbit_min (n : Nat) (h2 : 2 ≤ n) (h8 : n ≤ 8) (f : Array W) (hf 
   refine ⟨c, perm, mask, h, hwf, w1, w2, r.rel, ?_⟩
   intro σ μ t hσ hμ ht hrel
   exact min_of_cover n f c perm mask _ hf hsafe r σ μ hσ
-    (npn_cover n _ (fact_eq n h8) sw fl hs hfl hcs.distinct hcs.length hcf.nodup hcf.length σ hσ μ hμ) t ht hrel
+    (npn_cover n sw fl hs hfl hcs.nodup hcs.length hcf.nodup hcf.length σ hσ μ hμ) t ht hrel
 
 /-- the minimum is unique: a well-formed table in the orbit that is <= every member of the orbit
     is the representative (two tables of one size with the same value are equal, C08) -/
@@ -191,11 +187,11 @@ theorem isPerm_small (n : Nat) (h : n ≤ 1) (σ : Array Nat) (hσ : IsPerm n σ
     exact List.perm_singleton.mp hp
 
 /-- P for all n <= 8 -/
-theorem p_orbit_min_all (n : Nat) (h8 : n ≤ 8) (f : Array W) (hf : WF n f) :
+theorem p_orbit_min_all (n : Nat) (f : Array W) (hf : WF n f) :
     ∃ c perm, pCanonization n f = some (c, perm) ∧ WF n c ∧ IsPerm n perm ∧ CertRel n f c perm 0 ∧
       ∀ σ t, IsPerm n σ → WF n t → CertRel n f t σ 0 → toNatLE c.toList ≤ toNatLE t.toList := by
   by_cases h2 : 2 ≤ n
-  · exact p_orbit_min n h2 h8 f hf
+  · exact p_orbit_min n h2 f hf
   · have h1 : n ≤ 1 := by omega
     refine ⟨f, Array.range n, (p_small n h1 f).1, hf, isPerm_range n, cert_init n f, ?_⟩
     intro σ t hσ ht hrel
@@ -254,13 +250,13 @@ theorem n_orbit_min_all (n : Nat) (h64 : n ≤ 64) (f : Array W) (hf : WF n f) :
     exact n_zero_min f hf
 
 /-- NPN for all n <= 8 -/
-theorem npn_orbit_min_all (n : Nat) (h8 : n ≤ 8) (f : Array W) (hf : WF n f) :
+theorem npn_orbit_min_all (n : Nat) (h64 : n ≤ 64) (f : Array W) (hf : WF n f) :
     ∃ c perm mask, npnCanonization n f = some (c, perm, mask) ∧ WF n c ∧ IsPerm n perm ∧ mask < 2 ^ (n + 1) ∧
       CertRel n f c perm mask ∧
       ∀ σ μ t, IsPerm n σ → μ < 2 ^ (n + 1) → WF n t → CertRel n f t σ μ →
         toNatLE c.toList ≤ toNatLE t.toList := by
   by_cases h2 : 2 ≤ n
-  · exact npn_orbit_min n h2 h8 f hf
+  · exact npn_orbit_min n h2 h64 f hf
   · have h1 : n ≤ 1 := by omega
     obtain ⟨c, mask, h, wc, w2, rel, hmin⟩ := n_orbit_min_all n (by omega) f hf
     refine ⟨c, Array.range n, mask, by rw [npn_small n h1 f, h]; rfl, wc, isPerm_range n, w2, rel, ?_⟩
@@ -315,10 +311,10 @@ theorem class_generic (n : Nat) (G : Array Nat → Nat → Prop) (canon : Array 
       minf _ _ c' (hcomp σf μf σc μc Gf Gc) wc' (cert_comp n f c c' σf σc μf μc (hperm _ _ Gc) relf relc)
     rw [e2, min_unique n c' c wc' wc a b]
 
-/-- **C04, NPN classes** (n = 0..8): f and g have the same representative exactly when g is the
+/-- **C04, NPN classes** (n = 0..64): f and g have the same representative exactly when g is the
     image of f under an input permutation with input/output complementations; the representative
     of a representative is itself -/
-theorem npn_classes (n : Nat) (h8 : n ≤ 8) :
+theorem npn_classes (n : Nat) (h64 : n ≤ 64) :
     (∀ f g, WF n f → WF n g →
       ((∃ σ μ, (IsPerm n σ ∧ μ < 2 ^ (n + 1)) ∧ CertRel n f g σ μ) ↔
         (npnCanonization n f).map (·.1) = (npnCanonization n g).map (·.1))) ∧
@@ -331,13 +327,13 @@ theorem npn_classes (n : Nat) (h8 : n ≤ 8) :
   · intro σ μ h
     exact ⟨invPerm_isPerm n σ h.1, invMask_lt n σ μ⟩
   · intro f hf
-    obtain ⟨c, perm, mask, h, wc, w1, w2, rel, hmin⟩ := npn_orbit_min_all n h8 f hf
+    obtain ⟨c, perm, mask, h, wc, w1, w2, rel, hmin⟩ := npn_orbit_min_all n h64 f hf
     refine ⟨c, perm, mask, by rw [h]; rfl, wc, ⟨w1, w2⟩, rel, ?_⟩
     intro σ μ t hG ht hrel
     exact hmin σ μ t hG.1 hG.2 ht hrel
 
-/-- **C04, P classes** (n = 0..8) -/
-theorem p_classes (n : Nat) (h8 : n ≤ 8) :
+/-- **C04, P classes** (every n) -/
+theorem p_classes (n : Nat) :
     (∀ f g, WF n f → WF n g →
       ((∃ σ μ, (IsPerm n σ ∧ μ = 0) ∧ CertRel n f g σ μ) ↔
         (pCanonization n f).map (·.1) = (pCanonization n g).map (·.1))) ∧
@@ -353,7 +349,7 @@ theorem p_classes (n : Nat) (h8 : n ≤ 8) :
     obtain ⟨p, rfl⟩ := h
     exact ⟨invPerm_isPerm n σ p, invMask_zero n σ⟩
   · intro f hf
-    obtain ⟨c, perm, h, wc, w1, rel, hmin⟩ := p_orbit_min_all n h8 f hf
+    obtain ⟨c, perm, h, wc, w1, rel, hmin⟩ := p_orbit_min_all n f hf
     refine ⟨c, perm, 0, by rw [h]; rfl, wc, ⟨w1, rfl⟩, rel, ?_⟩
     intro σ μ t hG ht hrel
     obtain ⟨p, rfl⟩ := hG
